@@ -135,6 +135,35 @@ theorem reencode_event (e : Ev) (h : simple e = true) (st : EncSt) (hst : st.try
           subst hs
           simp [encodeFrom, encodeEv, smallHeader, shortCode, arrayHeader, arrayCode, bind, Except.bind, pure, Except.pure]
         · simp [h0, encodeFrom, encodeEv, hsm, arrayHeader, arrayCode, bind, Except.bind, pure, Except.pure]
+  case array t c d =>
+    simp only [simple, Bool.and_eq_true, decide_eq_true_eq] at h
+    obtain ⟨⟨ht, hlen⟩, hc56⟩ := h
+    simp only [renorm]
+    by_cases hshort : (shortCode t).isSome = true ∧ c ≤ maxSmallArrayLength
+    · simp only [hshort, and_self, if_true]
+      rw [encodeFrom_single st _ _ henc]
+      exact ⟨rfl, rfl, hst⟩
+    · simp only [hshort, if_false]
+      simp only [encodeEv, bind, Except.bind, encArrayWhole] at henc
+      have hsm : smallHeader t c = none := by
+        simp only [smallHeader]
+        by_cases hgt : c > maxSmallArrayLength
+        · simp [hgt]
+        · have hnone : shortCode t = none := by
+            cases hsc : shortCode t with
+            | none => rfl
+            | some v => exact absurd ⟨by simp [hsc], by omega⟩ hshort
+          simp [hgt, hnone]
+      simp only [hsm] at henc
+      cases hah : arrayHeader t with
+      | error err => simp [hah] at henc
+      | ok hd =>
+        simp [hah, pure, Except.pure] at henc; subst henc
+        by_cases h0 : c = 0
+        · have hd0 : d = [] := List.eq_nil_of_length_eq_zero (by rw [hlen, h0]; simp)
+          subst hd0; subst h0
+          simp [encodeFrom, encodeEv, hsm, hah, bind, Except.bind, pure, Except.pure]
+        · simp [h0, encodeFrom, encodeEv, hsm, hah, bind, Except.bind, pure, Except.pure]
   all_goals first
     | (simp [simple] at h; done)
     | (simp only [renorm, encodeFrom, henc]; simp [hst])
@@ -161,6 +190,11 @@ theorem encodeFrom_simple_state : ∀ (l : List Ev) (st st' : EncSt), l.all simp
         cases o with
         | none => simp [encodeEv] at henc henc'; rw [← henc, ← henc']
         | some i => simp [encodeEv] at henc henc'; rw [← henc, ← henc']
+      case array t c d =>
+        simp only [encodeEv, bind, Except.bind] at henc henc'
+        cases hw : encArrayWhole t c d with
+        | error err => simp [hw] at henc
+        | ok w => simp [hw] at henc henc'; rw [← henc, ← henc']
       all_goals first
         | (simp [simple] at h; done)
         | (simp [encodeEv] at henc henc'; rw [← henc, ← henc'])
